@@ -60,3 +60,11 @@ def reparse_timex(s):
 def model_cache():
     from recognizers_text.model import ModelFactory
     return ModelFactory._ModelFactory__cache
+
+
+def build_trie(phrases, ids):
+    from recognizers_text.matcher.trie_tree import TrieTree
+    t = TrieTree()
+    for p, i in zip(phrases, ids):
+        t.insert(list(p), i)
+    return t
